@@ -117,7 +117,24 @@ func genC05(r *Rand, tier string, i int) *h.Scenario {
 	if tier == "thorough" {
 		p.MaxBars, p.MaxOps = 8, 20
 	}
-	return GenBase(r, &p)
+	sc := GenBase(r, &p)
+	// bars added while the container is being cancelled are part of it too (or Add fails)
+	if r.Bool(0.15) {
+		op := h.Op{K: []int{h.OpCancel, h.OpShutdown}[r.Intn(2)]}
+		who := r.Intn(len(sc.Clients) + 1)
+		if who == len(sc.Clients) {
+			pos := r.Intn(len(sc.Main) + 1)
+			sc.Main = append(sc.Main[:pos:pos], append([]h.Op{op}, sc.Main[pos:]...)...)
+		} else {
+			ops := sc.Clients[who]
+			pos := r.Intn(len(ops) + 1)
+			sc.Clients[who] = append(ops[:pos:pos], append([]h.Op{op}, ops[pos:]...)...)
+		}
+		if sc.Cont.Notifier == 0 {
+			sc.Cont.Notifier = 1
+		}
+	}
+	return sc
 }
 
 func judgeC05(hi *Hist) []*Violation {
@@ -260,7 +277,7 @@ func judgeC05(hi *Hist) []*Violation {
 					continue
 				}
 				upper[bf.Idx] = true
-				if !bf.Queued && !mayBeRemovable(hi, bf) && !poppable(hi, bf) && (hi.WaitOut < 0 || bf.AddRet < hi.WaitOut) && !isCancelled {
+				if !bf.Queued && !mayBeRemovable(hi, bf) && !poppable(hi, bf) && (hi.WaitOut < 0 || bf.AddRet < hi.WaitOut) {
 					lower[bf.Idx] = true
 				}
 			}
